@@ -12,7 +12,7 @@ import CalVerif.Model.Metadata
 
 namespace MetaEnc
 
-open Meta (Bytes Text Ev)
+open Meta
 
 def byte (n : Nat) : UInt8 := UInt8.ofNat (n % 256)
 def le16 (n : Nat) : Bytes := [byte n, byte (n / 256)]
@@ -133,16 +133,113 @@ def XlsbSheet.bytes (s : XlsbSheet) : Bytes :=
 
 /-! ## XML events -/
 
-/-- `<sheet name=… sheetId=… [state=…] r:id=…/>` as Start + End; `q` qualifies element names with the
-    document's prefix for the main namespace. `state = none` leaves the attribute out (visible). -/
-def sheetEvents (q : String → String) (name : String) (sheetId : String) (state : Option SheetVisible) (ridKey rid : String) :
-    List Ev :=
-  [.start (q "sheet")
-      ([("name", name), ("sheetId", sheetId)] ++
-       (match state with | some v => [("state", xlsxVisName v)] | none => []) ++ [(ridKey, rid)]),
-   .end_ (q "sheet")]
+/-- a sheet as `xl/workbook.xml` + `xl/_rels/workbook.xml.rels` declare it -/
+structure XSheet where
+  name : String
+  sheetId : String
+  vis : SheetVisible
+  /-- write the `state` attribute (may be left out for a visible sheet) -/
+  writeState : Bool
+  rid : String
+  /-- `Target` of the relationship -/
+  target : String
+  kind : SheetType
+  deriving Repr, DecidableEq
 
-def definedNameEvents (q : String → String) (name value : String) : List Ev :=
-  [.start (q "definedName") [("name", name)]] ++ (if value.isEmpty then [] else [.text value]) ++ [.end_ (q "definedName")]
+/-- the attributes of `<sheet>`: name, sheetId, optional state, relationship id under the qualified name `ridKey` -/
+def sheetAttrList (ridKey : String) (s : XSheet) : List (String × String) :=
+  [("name", s.name), ("sheetId", s.sheetId)] ++
+    (if s.writeState then [("state", xlsxVisName s.vis)] else []) ++ [(ridKey, s.rid)]
+
+/-- `<sheet name=… sheetId=… [state=…] r:id=…/>` as Start + End; `q` qualifies element names with the
+    document's prefix for the main namespace -/
+def sheetEvents (q : String → String) (ridKey : String) (s : XSheet) : List Ev :=
+  [.start (q "sheet") (sheetAttrList ridKey s), .end_ (q "sheet")]
+
+/-- `<definedName name=…>text…</definedName>`; the text may arrive in several `Text` events -/
+def definedNameEvents (q : String → String) (n : String × List String) : List Ev :=
+  [.start (q "definedName") [("name", n.1)]] ++ n.2.map Ev.text ++ [.end_ (q "definedName")]
+
+/-- the optional `<workbookPr …/>` -/
+def prEvents (q : String → String) : Option (List (String × String)) → List Ev
+  | some attrs => [.start (q "workbookPr") attrs, .end_ (q "workbookPr")]
+  | none => []
+
+/-- the events of `xl/workbook.xml`: `<workbook> [<workbookPr …/>] <sheets>…</sheets> [<definedNames>…</definedNames>] </workbook>` -/
+def workbookEvents (q : String → String) (ridKey : String) (pr : Option (List (String × String)))
+    (sheets : List XSheet) (names : List (String × List String)) : List Ev :=
+  .start (q "workbook") [] ::
+    (prEvents q pr ++
+     (.start (q "sheets") [] ::
+       (sheets.flatMap (sheetEvents q ridKey) ++
+         (.end_ (q "sheets") ::
+           (.start (q "definedNames") [] ::
+             (names.flatMap (definedNameEvents q) ++ [.end_ (q "definedNames"), .end_ (q "workbook")]))))))
+
+/-! ### what the xlsx theorems assume and promise -/
+
+/-- what the reader is expected to report for a declared sheet -/
+def xsheetDecoded (s : XSheet) : Sheet String × List Char := (⟨s.name, s.kind, s.vis⟩, xlsxPath s.target.toList)
+
+def XSheet.ok (rels : List (String × String)) (s : XSheet) : Prop :=
+  rels.lookup s.rid = some s.target ∧ kindOfPath Gen.xlsxKindTable (xlsxPath s.target.toList) = some s.kind ∧
+  (s.writeState = false → s.vis = .visible)
+
+def ridKeyOk (k : String) : Prop := (afterColon k.toList).isSome = true ∧ localName k = "id"
+
+def QOk (q : String → String) : Prop := ∀ s, localName (q s) = s
+
+/-- the text of a defined name: its `Text` events concatenated -/
+def dnValue (n : String × List String) : String × String := (n.1, n.2.foldl (· ++ ·) "")
+
+/-- a table in `content.xml`: name, optional style reference, and the (opaque) events of its rows -/
+structure OTable where
+  name : String
+  styleName : Option String
+  body : List Ev
+  deriving Repr, DecidableEq
+
+def tableEvents (t : OTable) : List Ev :=
+  .start "table:table"
+      ((match t.styleName with | some s => [("table:style-name", s)] | none => []) ++ [("table:name", t.name)]) ::
+    (t.body ++ [.end_ "table:table"])
+
+/-- an automatic table style: `<style:style style:name=… style:family="table"><style:table-properties [table:display=…]/></style:style>` -/
+def styleEvents (st : String × Option Bool) : List Ev :=
+  [.start "style:style" [("style:name", st.1), ("style:family", "table")],
+   .start "style:table-properties" (match st.2 with | some true => [("table:display", "true")] | some false => [("table:display", "false")] | none => []),
+   .end_ "style:table-properties", .end_ "style:style"]
+
+def namedRangeEvents (n : String × String) : List Ev :=
+  [.start "table:named-range" [("table:name", n.1), ("table:cell-range-address", n.2)], .end_ "table:named-range"]
+
+/-- the events of `content.xml` as far as the metadata goes -/
+def contentEvents (styles : List (String × Option Bool)) (tables : List OTable) (names : List (String × String)) : List Ev :=
+  .start "office:document-content" [] :: .start "office:automatic-styles" [] ::
+    (styles.flatMap styleEvents ++
+      (.end_ "office:automatic-styles" :: .start "office:body" [] :: .start "office:spreadsheet" [] ::
+        (tables.flatMap tableEvents ++
+          (.start "table:named-expressions" [] ::
+            (names.flatMap namedRangeEvents ++
+              [.end_ "table:named-expressions", .end_ "office:spreadsheet", .end_ "office:body", .end_ "office:document-content"])))))
+
+/-! ### what the ods theorem promises -/
+
+/-- visibility a style declares: hidden only for `table:display="false"` -/
+def styleVis : Option Bool → SheetVisible
+  | some false => .hidden
+  | _ => .visible
+
+/-- the style table after reading `styles` (latest first, as `odsLoop` keeps it) -/
+def styleTable (styles : List (String × Option Bool)) : List (String × SheetVisible) :=
+  (styles.map fun s => (s.1, styleVis s.2)).reverse
+
+def tableVis (styles : List (String × Option Bool)) (t : OTable) : SheetVisible :=
+  match t.styleName with
+  | none => .visible
+  | some s => ((styleTable styles).lookup s).getD .visible
+
+def OTable.ok (t : OTable) : Prop := ∀ e ∈ t.body, e ≠ Ev.end_ "table:table"
+
 
 end MetaEnc
